@@ -65,6 +65,14 @@ def strKeys : List V → Option (List String)
   | .str s :: r => (strKeys r).map (s :: ·)
   | _ => Option.none
 
+/-- one element of the iterable given to `dict(…)`: a pair -/
+def dictStep (acc : List V × List V) (x : V) : PyM (List V × List V) :=
+  match x with
+  | .tuple [k, v] | .list [k, v] => mapSet acc.1 acc.2 k v
+  | .tuple _ | .list _ => throw .ValueError
+  | .bytes _ | .str _ => throw .unsupported
+  | _ => throw .TypeError
+
 /-- `dict(it)` of an iterable of pairs: later pairs overwrite earlier ones with an equal key; the
 result is a `dict` when every key is a string, a `map` otherwise -/
 def dict_ (it : V) : PyM V := do
@@ -73,12 +81,7 @@ def dict_ (it : V) : PyM V := do
   | .map ks vs => pure (.map ks vs)
   | _ =>
     let xs ← iter it
-    let r ← xs.foldlM (fun (acc : List V × List V) x => do
-      match x with
-      | .tuple [k, v] | .list [k, v] => mapSet acc.1 acc.2 k v
-      | .tuple _ | .list _ => throw .ValueError
-      | .bytes _ | .str _ => throw .unsupported
-      | _ => throw .TypeError) ([], [])
+    let r ← xs.foldlM dictStep ([], [])
     match strKeys r.1 with
     | some ks => pure (.dict ks r.2)
     | Option.none => pure (.map r.1 r.2)
